@@ -1118,7 +1118,14 @@ def run_test(ctx: FunctionContext) -> TestResult:
                 query=ex.path.to_smt2(args),
                 solving_ctx=ctx.solving_ctx,
             )
-            solver_output = solve_low_level(path_ctx)
+            try:
+                solver_output = solve_low_level(path_ctx)
+            except ShutdownError:
+                # early exit was triggered by a counterexample found in the meantime
+                if args.debug:
+                    print("aborting path exploration, executor has been shutdown")
+                break
+
             if solver_output.result != unsat:
                 stuck.append((path_id, ex, ex.context.get_stuck_reason()))
                 if args.print_blocked_states:
